@@ -34,7 +34,7 @@ type c07Case struct {
 	SrvSkipVerify bool `json:"srv_skip_verify,omitempty"`
 }
 
-var c07Behaviours = []string{"no-cert-msg", "empty", "trusted", "untrusted", "expired", "wrong-eku", "enc-untrusted", "enc-expired", "enc-wrong-eku", "sig-wrong-eku", "private-eku", "cv-omitted", "cv-otherkey", "cv-othertranscript", "cv-corrupt", "cv-second-cert-key", "cv-encleaf-second-cert-key", "one-cert"}
+var c07Behaviours = []string{"no-cert-msg", "empty", "trusted", "untrusted", "expired", "wrong-eku", "enc-untrusted", "enc-expired", "enc-wrong-eku", "sig-wrong-eku", "private-eku", "cv-omitted", "cv-omitted-encleaf", "cv-otherkey", "cv-othertranscript", "cv-corrupt", "cv-second-cert-key", "cv-encleaf-second-cert-key", "one-cert"}
 
 // c07Allows: the documented meaning of the six ClientAuthType constants, plus the standard's rule
 // that the ECDHE key exchange needs both client certificates.
@@ -74,7 +74,7 @@ func c07Allows(policy ClientAuthType, ecdhe bool, beh string) (complete bool, ve
 		if verifies && policy != RequireAndVerifyAnyKeyUsageClientCert {
 			return false, false
 		}
-	case "cv-omitted", "cv-otherkey", "cv-othertranscript", "cv-corrupt", "cv-second-cert-key", "cv-encleaf-second-cert-key":
+	case "cv-omitted", "cv-omitted-encleaf", "cv-otherkey", "cv-othertranscript", "cv-corrupt", "cv-second-cert-key", "cv-encleaf-second-cert-key":
 		// whoever sends a certificate must prove possession of its key: the key of the certificate the
 		// server reports as the client's identity (the first one), not of some other certificate in the list
 		return false, false
@@ -126,6 +126,9 @@ func c07Run(c c07Case) (sig, msg string) {
 	case "cv-second-cert-key":
 		// somebody else's signing certificate followed by the attacker's own certificate
 		encC = c07Attacker()
+	case "cv-omitted-encleaf":
+		// the client's own encryption certificate (no digitalSignature usage) listed first, no proof at all
+		sigC = p.CliEnc
 	case "cv-encleaf-second-cert-key":
 		// somebody else's encryption certificate (no digitalSignature usage) as the leaf
 		sigC, encC = p.CliEnc, c07Attacker()
@@ -166,7 +169,7 @@ func c07Run(c c07Case) (sig, msg string) {
 		if sendsCert && c.Beh != "empty" {
 			var err error
 			switch c.Beh {
-			case "cv-omitted":
+			case "cv-omitted", "cv-omitted-encleaf":
 			case "cv-otherkey":
 				err = cp.SendCertVerify(c02OtherKey(), nil, false)
 			case "cv-othertranscript":
@@ -551,7 +554,7 @@ func TestVF_C09_Shapes(t *testing.T) {
 }
 
 func TestVF_C07(t *testing.T) {
-	rec := vfRec("C07", "C07-clientauth", "six policies x client behaviours (Certificate omitted, empty, trusted, untrusted CA, expired, wrong EKU, CertificateVerify omitted / by another key / over another transcript / corrupted) x suites played by a scripted client-role peer, plus two-connection histories (policy P1 then P2 on a shared session cache x client certificate kind x second configuration's roots / clock), a server without client roots, a server Config that carries InsecureSkipVerify, one Config object serving two full handshakes with its clock moved past the client certificate's expiry in between, and eviction histories (a small server cache, client X's sessions evicted by client Y's, Y resumes: the server must report Y's identity); oracle: table from the documented ClientAuthType semantics; non-trivial = everything except (NoClientCert, no certificate); distinct = the case")
+	rec := vfRec("C07", "C07-clientauth", "six policies x client behaviours (Certificate omitted, empty, trusted, untrusted CA, expired, wrong EKU, CertificateVerify omitted (also with the encipherment-only encryption certificate listed first) / by another key / over another transcript / corrupted) x suites played by a scripted client-role peer, plus two-connection histories (policy P1 then P2 on a shared session cache x client certificate kind x second configuration's roots / clock), a server without client roots, a server Config that carries InsecureSkipVerify, one Config object serving two full handshakes with its clock moved past the client certificate's expiry in between, and eviction histories (a small server cache, client X's sessions evicted by client Y's, Y resumes: the server must report Y's identity); oracle: table from the documented ClientAuthType semantics; non-trivial = everything except (NoClientCert, no certificate); distinct = the case")
 	suites := []uint16{ECC_SM4_GCM_SM3, ECDHE_SM4_GCM_SM3}
 	if vfThorough() {
 		suites = vfSuites
